@@ -2,6 +2,7 @@ package verifsim
 
 import (
 	"bytes"
+	"context"
 	"fmt"
 	"math/rand/v2"
 	"net"
@@ -759,6 +760,70 @@ func c15RunListener(rc *RunCtx, p *C15Params) {
 		}
 	}
 	s.Probe("listener-routing-checked")
+	// a later connection that reuses an address: the first client and the connection accepted for
+	// it are closed; a new client bound to the first client's original address must be accepted as
+	// a new connection (every routing entry of the old one is gone) and be served
+	old := clients[0]
+	oldDone := 0
+	s.Go("close-old-client", func() { _ = old.conn.Close(); oldDone++ })
+	for _, sv := range servers {
+		if sv.peer0 == old.addr.String() {
+			sv := sv
+			oldDone--
+			s.Go("close-old-accepted", func() { _ = sv.conn.Close(); oldDone++ })
+		}
+	}
+	s.Run(func() bool { return oldDone == 1 }, 10*time.Second)
+	s.Run(func() bool { return false }, time.Second)
+	before := len(servers)
+	cspec, _ := pskPair(suitePSKGCM)
+	cspec.CIDLen, cspec.CIDTag = p.CCID, 0x77
+	sock := n.Rebind("r0", old.addr)
+	copts, _, oerr := cspec.Options(false, env, "r0")
+	if oerr != nil {
+		rc.Violate("harness", "%v", oerr)
+
+		return
+	}
+	nc, cerr := dtls.ClientWithOptions(sock, lAddr, copts...)
+	if cerr != nil {
+		rc.Violate("harness", "%v", cerr)
+
+		return
+	}
+	re := &cliSide{name: "r0", addr: old.addr, sock: sock, conn: nc, src: old.addr}
+	clients = append(clients, re)
+	s.Go("r0-handshake", func() {
+		ctx, cancel := context.WithTimeout(context.Background(), s.Uniq(30*time.Second))
+		defer cancel()
+		re.err = nc.HandshakeContext(ctx)
+		re.hs = true
+	})
+	s.Run(func() bool { return re.hs }, 40*time.Second)
+	if !re.hs || re.err != nil {
+		rc.Violate("address-reuse-misrouted", "after client %s (original address %s) and the connection accepted for it were closed, a new client bound to that address could not handshake with the listener within 30 s: done=%v err=%v (connections accepted since: %d)", old.name, old.addr, re.hs, re.err, len(servers)-before)
+
+		return
+	}
+	pl := Payload("r0", 5, 0, 24)
+	s.Go("r0-write", func() { _, _ = nc.Write(pl) })
+	arrived := func() bool {
+		for _, sv := range servers[before:] {
+			for _, g := range sv.got {
+				if bytes.Equal(g, pl) {
+					return true
+				}
+			}
+		}
+
+		return false
+	}
+	if !s.Run(arrived, 10*time.Second) && !arrived() {
+		rc.Violate("address-reuse-misrouted", "the new client at %s completed its handshake but its payload reached no connection accepted after the old one was closed", old.addr)
+
+		return
+	}
+	s.Probe("address-reused-by-a-later-connection")
 }
 
 func init() {
